@@ -31,6 +31,8 @@ type Node struct {
 	Next   *Node `json:"next"`
 	Arr    [2]any
 	Tags   map[string]string `json:"tags"`
+	Small  map[int8]string   `json:"small"`
+	Bytes  map[uint8]string
 	M      map[string]any
 	hidden string
 	secret any
@@ -122,6 +124,8 @@ func (v VD) Go() any {
 			m[k] = atoi(e.S)
 		}
 		return m
+	case "mapk":
+		return buildIntMap(v)
 	case "mapis":
 		m := make(map[int]string, len(v.M))
 		for k, e := range v.M {
@@ -259,6 +263,12 @@ func (v VD) node() Node {
 				n.Arr[i] = e.Go()
 			}
 		}
+	}
+	if sm, ok := v.M["Small"]; ok && sm.K == "mapk" && sm.S == "int8" {
+		n.Small = buildIntMapS[int8](sm.M)
+	}
+	if by, ok := v.M["Bytes"]; ok && by.K == "mapk" && by.S == "uint8" {
+		n.Bytes = buildIntMapU[uint8](by.M)
 	}
 	if tg, ok := v.M["Tags"]; ok {
 		n.Tags = make(map[string]string, len(tg.M))
